@@ -354,6 +354,13 @@ func (d *Dir) AddFault(f DirFault) {
 	d.mu.Unlock()
 }
 
+// AddFaultNext makes the k-th next operation of the given kind fail.
+func (d *Dir) AddFaultNext(kind string, k int64, err error) {
+	d.mu.Lock()
+	d.faults = append(d.faults, DirFault{Kind: kind, Nth: d.counts[kind] + k, Err: err})
+	d.mu.Unlock()
+}
+
 // Files returns a copy of the live files.
 func (d *Dir) Files() map[string][]byte {
 	d.mu.Lock()
